@@ -1088,7 +1088,9 @@ class OdeSystem(object):
 
                     if not self.__dense_output:
                         for _ in range(__pre_length - 1):
-                            self.__sol.remove_interpolant(0)
+                            # drop the OLDEST pieces: they are at the front for a forward run, at the back for
+                            # a backward run (whose pieces are prepended)
+                            self.__sol.remove_interpolant(0 if dTime >= 0 else -1)
 
                 steps += 1
                 
